@@ -92,6 +92,19 @@ def cond_atoms(ctx, c, pol=True, subst=None):
         if b is not None and b.kind == "let" and not b.mut and b.init is not None and not b.proj and b.v not in ctx.addr_mut:
             if ctx._let_inlinable(b, ctx.term(b.init), c):
                 return cond_atoms(ctx, b.init, pol, subst)
+    if k in ("MethodCall", "Call"):
+        # a predicate method that is one pure comparison (`x.is_zero()` = `*self == Self::zero()`): the comparison itself
+        from .terms import is_simple_fn
+        p_ = (c.get("impl") or c.get("fn")) if k == "MethodCall" else ((c["f"].get("impl") or c["f"].get("fn")) if c.get("f", {}).get("k") == "Def" else None)
+        cf = ctx.pdb.fn(p_) if p_ else None
+        if cf is not None and is_simple_fn(ctx.pdb, cf) and str(cf.get("output")) == "bool":
+            body = strip(cf["body"])
+            while body.get("k") == "Block" and not body.get("stmts") and body.get("expr") is not None:
+                body = strip(body["expr"])
+            if body.get("k") in ("Binary", "Unary"):
+                args = ([c["recv"]] + list(c.get("args", []))) if k == "MethodCall" else list(c.get("args", []))
+                sub = {("param", i): ctx.term(a, subst) for i, a in enumerate(args)}
+                return cond_atoms(Ctx.for_fn(ctx.pdb, cf), body, pol, sub)
     t = ctx.term(c, subst)
     return [("bool", t, pol)]
 
